@@ -400,7 +400,11 @@ func scalarDatum(t string, tv *sdcpb.TypedValue) string {
 	case *sdcpb.TypedValue_EmptyVal:
 		return "e:"
 	case *sdcpb.TypedValue_DecimalVal:
-		return "d:" + decimalFromDigits(v.DecimalVal.GetDigits(), v.DecimalVal.GetPrecision())
+		lex := decimalFromDigits(v.DecimalVal.GetDigits(), v.DecimalVal.GetPrecision())
+		if t == "union" {
+			return LexDatum(t, lex)
+		}
+		return "d:" + lex
 	case *sdcpb.TypedValue_BytesVal:
 		return "bin:" + base64.StdEncoding.EncodeToString(v.BytesVal)
 	case *sdcpb.TypedValue_IdentityrefVal:
@@ -452,7 +456,10 @@ func LexDatum(t, s string) string {
 		if n, err := strconv.ParseInt(s, 10, 64); err == nil {
 			return "un:" + strconv.FormatInt(n, 10)
 		}
-		return "un:" + s
+		if c, ok := canonDecimal(s); ok && strings.Contains(s, ".") {
+			return "un:" + c
+		}
+		return "un:" + EscDatum(s)
 	case "binary":
 		return "bin:" + s
 	case "bits":
@@ -460,7 +467,39 @@ func LexDatum(t, s string) string {
 		sort.Strings(f)
 		return "bits:" + strings.Join(f, " ")
 	}
-	return "s:" + s
+	return "s:" + EscDatum(s)
+}
+
+// EscDatum keeps datums ASCII and free of the characters that structure them: every byte outside a safe set is %XX
+func EscDatum(s string) string {
+	var b strings.Builder
+	for i := 0; i < len(s); i++ {
+		c := s[i]
+		if c >= 'a' && c <= 'z' || c >= 'A' && c <= 'Z' || c >= '0' && c <= '9' || strings.IndexByte(" ._:/=-+$[],@#", c) >= 0 {
+			b.WriteByte(c)
+		} else {
+			fmt.Fprintf(&b, "%%%02X", c)
+		}
+	}
+	return b.String()
+}
+
+func UnescDatum(s string) string {
+	if !strings.Contains(s, "%") {
+		return s
+	}
+	var b strings.Builder
+	for i := 0; i < len(s); i++ {
+		if s[i] == '%' && i+2 < len(s)+0 && i+2 <= len(s)-1+0 {
+			if n, err := strconv.ParseUint(s[i+1:i+3], 16, 8); err == nil {
+				b.WriteByte(byte(n))
+				i += 2
+				continue
+			}
+		}
+		b.WriteByte(s[i])
+	}
+	return b.String()
 }
 
 // Variant names the TypedValue variant (used by the value engine).
@@ -500,7 +539,7 @@ func (u *Universe) TypedValue(l *Leaf, datum string) (*sdcpb.TypedValue, error) 
 	}
 	switch tag {
 	case "s", "un":
-		return &sdcpb.TypedValue{Value: &sdcpb.TypedValue_StringVal{StringVal: lex}}, nil
+		return &sdcpb.TypedValue{Value: &sdcpb.TypedValue_StringVal{StringVal: UnescDatum(lex)}}, nil
 	case "u":
 		n, err := strconv.ParseUint(lex, 10, 64)
 		if err != nil {
